@@ -89,6 +89,7 @@ type dictionary struct {
 
 	rawStrings []string
 	rawInts    []int
+	envNames   []string // literal first arguments of os.Getenv / os.LookupEnv (procenv.go)
 }
 
 //go:embed dict_baseline.json
@@ -185,7 +186,7 @@ func loadDict() {
 	if root == "" {
 		root = "/repo"
 	}
-	var strs []string
+	var strs, envNames []string
 	var ints []int
 	fset := token.NewFileSet()
 	filepath.WalkDir(root, func(path string, d fs.DirEntry, err error) error {
@@ -214,6 +215,15 @@ func loadDict() {
 			}
 			if f, ok := n.(*ast.Field); ok && f != nil && f.Tag != nil {
 				skip[f.Tag] = true // struct tags are not data
+			}
+			if ce, ok := n.(*ast.CallExpr); ok && len(ce.Args) >= 1 {
+				if sel, ok := ce.Fun.(*ast.SelectorExpr); ok && (sel.Sel.Name == "Getenv" || sel.Sel.Name == "LookupEnv") {
+					if lit, ok := ce.Args[0].(*ast.BasicLit); ok && lit.Kind == token.STRING {
+						if s, err := strconv.Unquote(lit.Value); err == nil && s != "" {
+							envNames = append(envNames, s)
+						}
+					}
+				}
 			}
 			if be, ok := n.(*ast.BinaryExpr); ok {
 				// constant expressions over integer literals (24 * 60 * 60, 1 << 16): the value counts
@@ -253,6 +263,7 @@ func loadDict() {
 		baseI[x] = true
 	}
 	dict.rawStrings, dict.rawInts = uniqSortedStr(strs), uniqSortedInt(ints)
+	dict.envNames = uniqSortedStr(envNames)
 	addS := func(c *strClass, s string, novel bool) {
 		c.all = append(c.all, s)
 		if novel {
